@@ -7,6 +7,7 @@ import (
 	"fmt"
 	"math"
 	"math/rand"
+	"strings"
 
 	"github.com/wolimst/lib-secs2-hsms-go/pkg/ast"
 )
@@ -92,6 +93,7 @@ type Gen struct {
 	NoDigits bool // ASCII literals without digits
 	Ladder   int  // > 0: one size in Ladder (values of an item, characters of a string, children of a list) sits next to a
 	LadderTo int  // power of two up to LadderTo - the thresholds of fast paths, pools, caches and small-size optimisations
+	Wordy    bool // some variable names are words like "true" / "False" (names, not literals)
 	Indexed  bool // some variable names are an earlier name with an index behind it ("v1[0]"): the shape generated names have
 	names    []string
 }
@@ -251,6 +253,21 @@ func (g *Gen) asciiStr(maxLen int) string {
 }
 
 func (g *Gen) newVar() string {
+	if g.Wordy && g.pick(5) == 0 {
+		// names that look like reserved words of SML but are not: the words for boolean values spelled out
+		for _, cand := range []string{"true", "False", "TRUE", "fAlSe", "tRUE", "FALSE", "True", "false"} {
+			fresh := true
+			for _, n := range g.names {
+				if strings.EqualFold(n, cand) {
+					fresh = false
+				}
+			}
+			if fresh && g.pick(2) == 0 {
+				g.names = append(g.names, cand)
+				return cand
+			}
+		}
+	}
 	if g.Indexed && g.pick(8) == 0 {
 		// an indexed name whose base is no variable of its own
 		g.varSeq++
